@@ -52,7 +52,7 @@ BAD = {
     "length": ["2em", "3ex", "1.5rem", "4vw", "abc", "1e", "--5", "5 5", "1e999", "", "12qq", "NaN", "inf", "-", ".", "1..2", "5%%"],
     "points": ["1,2 3", "a", "1,2,,3", "", "1 2 3 4 5", "1e999,0 2,2", ",,,", "1,2;3,4"],
     "viewBox": ["0 0 0 0", "a b c d", "1 2 3", "", "0 0 -5 -5", "0,0,10", "1e999 0 1 1", "0 0 10 0"],
-    "d": ["M 0,0 L 10,10 z 5", "M 0,0 1 z", "M 3,3 L 5,5 L 9,1 L", "M 1,1 C 1,1 2,2 z 3", "M0,0 Q 1,1 z 7 L 2,2", "M 2,2 L 4,4 T", "M 1 2 L", "L 5 5", "M 1 1 A 1 1 0 2 0 3 3", "M0,0 h", "z", "Q 1 1 2 2", "M 1 2 C 3", "M 1 2 X 4", "h 5", "a 1 1 0 0 1 5 5", "M 1", "t 1 1", "M0,0 A 1 z", "m", "M 1 2 L 3 4 5", "é", "M 1e999 0 L 1 1"],
+    "d": ["M 0,0 L 10,10 z 5", "M 0,0 1 z", "M 3,3 L 5,5 L 9,1 L", "M 1,1 C 1,1 2,2 z 3", "M0,0 Q 1,1 z 7 L 2,2", "M 2,2 L 4,4 T", "M 1 2 L", "L 5 5", "M 1 1 A 1 1 0 2 0 3 3", "M0,0 h", "z", "Q 1 1 2 2", "M 1 2 C 3", "M 1 2 X 4", "h 5", "a 1 1 0 0 1 5 5", "M 1", "t 1 1", "M0,0 A 1 z", "m", "M 1 2 L 3 4 5", "é", "M 1e999 0 L 1 1", "C 3 2 z 0 1 3 5 v 5", "q 1 1 z", "c 1 2 3 4 z L 1 1"],
     "stroke-width": ["abc", "-1", "1e999", "", "1 2", "5%%", "2em"],
     "opacity": ["inf", "1e999", "-1e999", "abc", "nan", "", "1,5", "200%"],
 }
